@@ -67,19 +67,19 @@ changed (I2). -/
 theorem C19_activew_inv (aw : Option (List Field)) (hw : IdWritable aw) (k0 : KSt)
     (hkc : ∀ e ∈ k0.recs, e.1 = e.2.id) (hnd : (k0.recs.map (·.1)).Nodup)
     (h1 : ∀ e1 ∈ k0.recs, ∀ e2 ∈ k0.recs, e1.2.normal = true → e2.2.normal = true → e1 = e2)
-    (ha0 : k0.changed = true → k0.active.id ∈ k0.recs.map (·.1))
+    (ha0 : k0.changed = true → k0.active.id ≠ "" → k0.active.id ∈ k0.recs.map (·.1))
     (ops : List Op) (ht : ∀ op ∈ ops, op.Tame) :
     let k := wrun aw k0 ops
     ((k.recs.map (·.2)).filter (·.normal)).length ≤ 1 ∧
     (∀ e ∈ k.recs, e.1 = e.2.id) ∧ (k.recs.map (·.1)).Nodup ∧
-    (k.changed = true →
+    (k.changed = true → k.active.id ≠ "" →
       (∃ st, kfind k k.active.id = some st ∧ st.id = k.active.id) ∧
       ∀ am d, wstep aw k (.delete k.active.id am d) = (k, .err .failedPrecondition) ∧
         (k.active.id ≠ "" → wstep aw k (.sDelete k.active.id am) = (k, .err .failedPrecondition))) := by
   obtain ⟨hj, ha⟩ := wrun_JA hw ops k0 ⟨hkc, hnd, h1⟩ ha0 ht
   intro k
-  refine ⟨J_count hj, hj.kc, hj.nd, fun hch => ?_⟩
-  have hin := ha hch
+  refine ⟨J_count hj, hj.kc, hj.nd, fun hch hne0 => ?_⟩
+  have hin := ha hch hne0
   refine ⟨?_, fun am d => ?_⟩
   · have hs : (kfind k k.active.id).isSome = true := (kfindL_isSome_iff _ _).mpr hin
     cases hf : kfind k k.active.id with
@@ -108,6 +108,7 @@ example : let r := wstep (some [.id, .title, .description, .voltage, .segments, 
     Field.id ∈ [Field.id, .title, .description, .voltage, .segments, .normal] := by decide
 /-- `C19_activew_inv` applies to the new model and to `ksAB` -/
 example : (∀ e ∈ ksAB.recs, e.1 = e.2.id) ∧ (ksAB.recs.map (·.1)).Nodup ∧
-    (ksAB.changed = true → ksAB.active.id ∈ ksAB.recs.map (·.1)) := by decide
+    (ksAB.changed = true → ksAB.active.id ≠ "" → ksAB.active.id ∈ ksAB.recs.map (·.1)) ∧
+    ksAB.active.id ≠ "" := by decide
 
 end ScVerif.C19
